@@ -68,17 +68,38 @@ def gen(rng, k):
         cid += 10
         script.append(dict(t=1000, s=s1, op='ca_start', ca=0, delay=0))
         script.append(dict(t=rng.choice([1000, 1200, 100000]), s=s1 + 1, op='ca_start', ca=0, delay=0))
-    owned = [m['addr'] for m in meta]
+    tx_errors = []
+    if rng.random() < 0.25:
+        # a fixed-address CA that loses its address to a lower NAME, and whose cannot-claim frame the driver refuses
+        # (can.CanError from send): it holds no address all the same — no callbacks, no answers from it
+        B = addr()
+        low = gen_ca.mk_name(rng, False) & ((1 << 40) - 1)
+        high = (gen_ca.mk_name(rng, False) | (1 << 62)) & ~(1 << 63)
+        s1 = len(stacks)
+        stacks.append(dict(dll='j1939-21', max_cmdt=1, subs=[], cas=[dict(name=low, addr=B, bypass=False, subs=[cid], req=[cid + 1])]))
+        meta.append(dict(stack=s1, ca=0, phase='normal', addr=B, reqs=[cid + 1], name=low & ~(1 << 48)))
+        cid += 10
+        stacks.append(dict(dll='j1939-21', max_cmdt=1, subs=[], cas=[dict(name=high, addr=B, bypass=False, subs=[cid], req=[cid + 1])]))
+        meta.append(dict(stack=s1 + 1, ca=0, phase='cannot', addr=None, reqs=[cid + 1], name=high & ~(1 << 48)))
+        cid += 10
+        script.append(dict(t=1000, s=s1, op='ca_start', ca=0, delay=0))
+        script.append(dict(t=20000, s=s1 + 1, op='ca_start', ca=0, delay=0))
+        tx_errors.append(dict(s=s1 + 1, nth=2))
+    owned = [m['addr'] for m in meta if m['addr'] is not None]
     for _ in range(rng.randint(1, 5)):
         t = 1_000_000 + rng.randint(2000, 200000)
-        pgn = rng.choice([0xEE00, 0xFECA, 0xFEDA, 0, 0x3FFFF, 0x1FFFF, 0x10000, rng.getrandbits(18)])
+        pgn = rng.choice([0xEE00, 0xFECA, 0xFEDA, 0, 0x3FFFF, 0x1FFFF, 0x10000, rng.getrandbits(18),
+                          0xEE01, 0xEEFF, 0xEE00 + rng.randrange(256), 0x2EE00, 0x1EE00 + rng.randrange(256)])   # neighbours of the address-claim PGN
         dest = rng.choice(owned + owned + [255, 255, rng.choice([x for x in range(254) if x not in used])])
         dp = rng.choice([0, 0, 0, 1])
         if not req_has_addr:
             pgn = rng.choice([0xEE00, 0xEE00, 0xFECA])
         script.append(dict(t=t, s=0, op='ca_request', ca=0, a=[dp, pgn, dest]))
     script.sort(key=lambda e: e['t'])
-    return dict(stacks=stacks, lat=[rng.choice([0, 1, 5000])], jit=[1], script=script, horizon=1_240_000, meta=meta, requester=dict(addr=ra, has=req_has_addr))
+    sc = dict(stacks=stacks, lat=[rng.choice([0, 1, 5000])], jit=[1], script=script, horizon=1_240_000, meta=meta, requester=dict(addr=ra, has=req_has_addr))
+    if tx_errors:
+        sc['tx_errors'] = tx_errors
+    return sc
 
 
 def oracle(sc, res):
